@@ -1,7 +1,7 @@
 (* C07 - The traced schema does not depend on sample order or repetition.
    Model: Trace/Tracer.v (trace, to_field, from_samples), compared with the crate on every run
    (exhaustive leaf pairs x 16 option sets, triples, nested shapes). *)
-From Verif Require Import Tracer Coerce Coerce_proofs CoerceTable CoerceTable_proofs TracerTablesSpec Null_proofs Struct_proofs Project_proofs FlatRecords_proofs Nested_order Nested_schema.
+From Verif Require Import Tracer Coerce Coerce_proofs CoerceTable CoerceTable_proofs TracerTablesSpec Null_proofs Struct_proofs Project_proofs FlatRecords_proofs Nested_order Nested_schema Nested_repeat.
 From Coq Require Import Permutation.
 
 (* Full-strength statement (kept visible): evaluated on the implementation on every run by the
@@ -217,6 +217,13 @@ Proof.
   - do 2 eexists. split; [vm_compute; reflexivity|]. split; [vm_compute; reflexivity|]. split; reflexivity.
 Qed.
 
+(* "repeating samples changes nothing", for nested data: tracing a collection of the class Hom twice over succeeds whenever tracing it
+   once does, and gives the same tracer up to the order of record fields and counters (the converse direction of the projection
+   theorems: a record / sequence position traces successfully as soon as each of its children does) *)
+Theorem C07_nested_repeat : forall o n d vs t, Hom o n vs -> trace_seq' o d vs (Ok (TUnknown false)) = Ok t ->
+  exists t2, trace_seq' o d (vs ++ vs) (Ok (TUnknown false)) = Ok t2 /\ teq t t2.
+Proof. exact nested_repeat. Qed.
+
 (* ... and at the level of schemas: from_samples on nested data (the class Hom) gives, for the same samples in any two orders that both
    succeed, the same schema up to the order of struct fields at every level (sdeq: the same field names, and for every name fields
    that agree in name, nullability, strategy and - recursively - data type).  This is C07_full restricted to the class Hom. *)
@@ -240,3 +247,4 @@ Print Assumptions C07_record_projection.
 Print Assumptions C07_tables_order_independent.
 Print Assumptions C07_nested_order_independent.
 Print Assumptions C07_from_samples_order_independent_nested.
+Print Assumptions C07_nested_repeat.
